@@ -83,6 +83,10 @@ theorem return_paths_as_modelled : returnPaths = [
 
 theorem create_revert_condition : createRevertCond = "maxCodeSizeExceeded || (err != nil && err != ErrCodeStoreOutOfGas)" := by decide
 
+/-- the max-code-size test is strict: exactly `MaxCodeSize` bytes are allowed (`retmax` in the trees),
+    one more is `ErrMaxCodeSizeExceeded` (`rethuge`) -/
+theorem create_size_test_as_modelled : createSizeTest = "maxCodeSizeExceeded := len(ret) > MaxCodeSize" := by decide
+
 theorem read_only_guard_as_modelled : readOnlyGuard = "in.readOnly && (operation.writes || (op == CALL && stack.Back(2).Sign() != 0)) -> ErrWriteProtection" := by decide
 
 /-- `Run` only ever SETS `in.readOnly` (and resets it on leaving the frame that set it): the flag is
